@@ -278,4 +278,43 @@ theorem closeH_good {tr} (hp : PairAdditive tr) (st : WSt) (h : Good st) :
   · simp only [hb, ↓reduceIte]
     split <;> simp
 
+/-! ### the UTF-8 model is pair-additive -/
+
+theorem cutsPair_tail2 (x y : Nat) (r b : List Nat) (h : cutsPair (x :: y :: r) b = false) : cutsPair r b = false := by
+  cases r with
+  | nil => simp [cutsPair, endsLead, isLead]
+  | cons z zs => simpa [cutsPair, endsLead, List.getLast?_cons_cons] using h
+
+theorem cutsPair_tail1 (x y : Nat) (r b : List Nat) (h : cutsPair (x :: y :: r) b = false) : cutsPair (y :: r) b = false := by
+  simpa [cutsPair, endsLead, List.getLast?_cons_cons] using h
+
+theorem trUtf8_append_aux : ∀ (n : Nat) (a b : List Nat), a.length = n → cutsPair a b = false →
+    trUtf8 (a ++ b) = trUtf8 a ++ trUtf8 b := by
+  intro n
+  induction n using Nat.strongRecOn with
+  | ind n ih =>
+    intro a b hl hc
+    match a, hl with
+    | [], _ => simp [trUtf8]
+    | [u], _ =>
+      cases b with
+      | nil => simp [trUtf8]
+      | cons l r =>
+        have hnp : (isLead u && isTrail l) = false := by
+          simpa [cutsPair, endsLead] using hc
+        simp [trUtf8, hnp]
+    | h :: l :: r, hl =>
+      have hlen : r.length < n ∧ (l :: r).length < n := by
+        simp only [List.length_cons] at hl ⊢; omega
+      by_cases hp : (isLead h && isTrail l) = true
+      · have := ih r.length hlen.1 r b rfl (cutsPair_tail2 h l r b hc)
+        simp [trUtf8, hp, this]
+      · have hp' : (isLead h && isTrail l) = false := by simpa using hp
+        have := ih (l :: r).length hlen.2 (l :: r) b rfl (cutsPair_tail1 h l r b hc)
+        simp only [List.cons_append] at this
+        simp [trUtf8, hp', this]
+
+theorem trUtf8_pairAdditive : PairAdditive trUtf8 :=
+  ⟨rfl, fun a b h => trUtf8_append_aux a.length a b rfl h⟩
+
 end XalanModel.C05
